@@ -11,25 +11,31 @@ from pbt.props import c03
 
 ID = "C19"
 RULE = ("A program of table operations over a pool of (table, list-of-tuples model) pairs. Table types: Interval, Bed6, Bed12, BedGraph, NarrowPeak, "
-        "ChromosomeSize, SequenceEntry, SequenceEntryWithQuality, SAMEntry, GTFEntry, PairsEntry, VCFWithInfoAsStringEntry from bionumpy.datatypes, and "
+        "ChromosomeSize, SequenceEntry, SequenceEntryWithQuality, SAMEntry, GTFEntry, PairsEntry, VCFWithInfoAsStringEntry and BamEntry (CIGAR lengths up to 2^28 in a numerically encoded ragged column, given as lists of rows) from bionumpy.datatypes, and "
         "classes made with make_dataclass over str, SequenceID, int, float, bool, Optional[int], List[int], a DNA-encoded column and a nested table; "
         "0..N rows. Numeric columns are given in varying but valid dtypes (Python ints, int32, uint8, whole-number floats as ints). Operations: len, "
-        "index with integer, slice, boolean mask, integer list, np.concatenate, sort_by(column), iteration, bnp.replace, add_fields, tolist, todict, "
+        "index with integer, slice, boolean mask, integer list, np.concatenate, sort_by(column), iteration, bnp.replace, add_fields, tolist, todict, from_dict(todict()), "
         "topandas -> from_data_frame, from_entry_tuples, construction with a foreign character in an encoded column, construction with columns of "
         "different lengths. Oracle after every step: every column has the table's length; tolist()/rows equal the model rows; every operand still "
-        "equals its snapshot; from_entry_tuples(rows) and from_data_frame(topandas()) reproduce the table; invalid constructions raise. "
+        "equals its snapshot; from_entry_tuples(rows), from_dict(todict()) and from_data_frame(topandas()) reproduce the table; invalid constructions raise. "
         "Non-trivial: >= 2 steps on a table with at least two column representations (ndarray and ragged/encoded), including an empty or single-row operand.")
 ASSUMPTIONS = [
     "sort_by is checked as an ordered permutation (stability is not claimed) and only on numeric and flat encoded columns; on a string-array column NumPy's argsort is not implemented and a TypeError is a tolerant class.",
     "Passing text to a numeric column is not asserted either way (construction only documents np.asanyarray for numbers).",
     "pandas round trips are checked for column types pandas can carry (no list-valued or quality columns).",
 ]
-REQUIRED_CLASSES = ["concat", "sort_by", "replace", "add_fields", "pandas", "from_entry_tuples", "bad-construction", "empty-operand", "single-row-operand",
+REQUIRED_CLASSES = ["dict-roundtrip", "bam", "concat", "sort_by", "replace", "add_fields", "pandas", "from_entry_tuples", "bad-construction", "empty-operand", "single-row-operand",
                     "dynamic-class", "nested-table", "mixed-dtype-concat", "int-index"]
-BOUNDS = {"quick": "300 programs of up to 12 steps for each of 15 table types, tables of up to 6 rows", "thorough": "4000 programs of up to 30 steps per type, tables of up to 20 rows"}
+BOUNDS = {"quick": "300 programs of up to 12 steps for each of 16 table types, tables of up to 6 rows", "thorough": "4000 programs of up to 30 steps per type, tables of up to 20 rows"}
 BUDGET_S = {"quick": 200, "thorough": 1500}
 
-STATIC = ["interval", "bed6", "bed12", "bedgraph", "narrowpeak", "chromsizes", "fasta2", "fastq", "sam", "gtf", "pairs", "vcf"]
+STATIC = ["interval", "bed6", "bed12", "bedgraph", "narrowpeak", "chromsizes", "fasta2", "fastq", "sam", "gtf", "pairs", "vcf", "bam"]
+# table types that are not in the C03 list (no text writer): name -> (dataclass path, column kinds)
+EXTRA = {
+    "bam": ("bionumpy.datatypes.BamEntry",
+            [("chromosome", "id"), ("name", "id"), ("flag", "uint16"), ("position", "pos"), ("mapq", "uint8"), ("cigar_op", "cigarop"),
+             ("cigar_length", "numlist"), ("sequence", "bamseq"), ("quality", "qual")]),
+}
 DYNAMIC = {
     "dyn_mixed": [("label", "str"), ("ident", "id"), ("count", "int"), ("weight", "float"), ("flag", "bool"), ("opt", "int"), ("items", "ilist"), ("dna", "dna")],
     "dyn_numeric": [("a", "int"), ("b", "float"), ("c", "bool")],
@@ -45,6 +51,8 @@ def _where(e):
 def kinds_of(tname):
     if tname in DYNAMIC:
         return DYNAMIC[tname]
+    if tname in EXTRA:
+        return EXTRA[tname][1]
     return c03.TYPES[tname][3]
 
 
@@ -57,6 +65,8 @@ def dataclass_of(tname):
     from bionumpy.bnpdataclass import make_dataclass
     from bionumpy.typing import SequenceID
     from bionumpy.datatypes import Interval
+    if tname in EXTRA:
+        return c03._load(EXTRA[tname][0])
     if tname not in DYNAMIC:
         return c03._load(c03.TYPES[tname][0])
     if tname not in _DYN_CACHE:
@@ -76,7 +86,12 @@ def build(tname, rows, dtype_variant=0):
     cols = []
     for j, (name, kind) in enumerate(kinds_of(tname)):
         vals = [r[j] for r in rows]
-        if kind in ("int", "uint", "pos"):
+        if kind in ("uint16", "uint8"):
+            cols.append(np.array(vals, dtype=int))
+        elif kind == "numlist":
+            # numbers of a numerically encoded ragged column, given as a list of rows (lists, or arrays as todict() returns them)
+            cols.append([np.array(v, dtype=int) for v in vals] if dtype_variant % 2 else [list(v) for v in vals])
+        elif kind in ("int", "uint", "pos"):
             dt = [np.int64, np.int32, np.int64][dtype_variant % 3]
             if dtype_variant % 3 == 1 and any(abs(v) >= 2 ** 31 for v in vals):
                 dt = np.int64
@@ -108,8 +123,10 @@ def model_rows(tname, rows):
         for (n, k), v in zip(kinds_of(tname), r):
             if k == "qual":
                 row.append([ord(c) - 33 for c in v])
-            elif k == "ilist":
+            elif k in ("ilist", "numlist"):
                 row.append([int(x) for x in v])
+            elif k in ("uint16", "uint8"):
+                row.append(int(v))
             elif k == "float":
                 row.append(float(v))
             elif k == "bool":
@@ -141,7 +158,7 @@ def classify(case):
     tname = case["type"]
     names = [op["op"] for op in case["program"]]
     cl = [tname]
-    for k in ("concat", "sort_by", "replace", "add_fields", "pandas", "from_entry_tuples", "bad-construction"):
+    for k in ("concat", "sort_by", "replace", "add_fields", "pandas", "from_entry_tuples", "bad-construction", "dict-roundtrip"):
         if k in names:
             cl.append(k)
     if "int" in names:
@@ -313,8 +330,13 @@ def check(case, stats=None):
                     if nm not in d or len(d[nm]) != n:
                         out.append(Failure("C19:todict", {"field": nm, "keys": list(d.keys())}))
                         break
+            elif name == "dict-roundtrip":
+                if n == 0 or any(k == "nested" for _, k in kinds):
+                    continue
+                back = dc.from_dict(T.todict())
+                verify(back, R, op)
             elif name == "pandas":
-                if any(k in ("ilist", "qual", "nested") for _, k in kinds) or n == 0:
+                if any(k in ("ilist", "qual", "nested", "numlist") for _, k in kinds) or n == 0:
                     continue
                 df = T.topandas()
                 back = dc.from_data_frame(df)
@@ -379,6 +401,16 @@ def value_strategy(kind):
         return st.one_of(st.floats(-1e6, 1e6, allow_nan=False), st.integers(-50, 50).map(float), st.sampled_from([0.5, 2.75, 1e-5, 1e16]))
     if kind == "int":
         return st.one_of(st.integers(-2 ** 62, 2 ** 62), st.integers(-1000, 1000), st.integers(0, 255))
+    if kind == "uint16":
+        return st.integers(0, 65535)
+    if kind == "uint8":
+        return st.integers(0, 255)
+    if kind == "cigarop":
+        return st.text(alphabet="MIDNSHP=X", min_size=1, max_size=4)
+    if kind == "numlist":
+        return st.lists(st.one_of(st.integers(1, 255), st.integers(256, 2 ** 28 - 1), st.sampled_from([255, 256, 300, 65536])), min_size=1, max_size=4)
+    if kind == "bamseq":
+        return st.text(alphabet="=ACMGRSVTWYHKDBN", min_size=0, max_size=8)
     return c03.value_strategy(kind)
 
 
@@ -398,6 +430,7 @@ def op_strategy():
         st.builds(lambda s, sd: {"op": "add_fields", "src": s, "seed": sd}, src, st.integers(0, 999)),
         st.builds(lambda s: {"op": "tolist", "src": s}, src),
         st.builds(lambda s: {"op": "todict", "src": s}, src),
+        st.builds(lambda s: {"op": "dict-roundtrip", "src": s}, src),
         st.builds(lambda s: {"op": "pandas", "src": s}, src),
         st.builds(lambda s: {"op": "from_entry_tuples", "src": s}, src),
         st.builds(lambda s, h: {"op": "bad-construction", "src": s, "how": h}, src, st.sampled_from(["lengths", "foreign"])),
@@ -413,6 +446,8 @@ def c19_case(draw, tname, max_rows, max_steps):
         row = [draw(value_strategy(k)) for _, k in kinds]
         if tname == "fastq":
             row[2] = draw(st.text(alphabet="!5I~#", min_size=len(row[1]), max_size=len(row[1])))
+        if tname == "bam":
+            row[8] = draw(st.text(alphabet="!5I~#", min_size=len(row[7]), max_size=len(row[7])))
         rows.append(row)
     return {"type": tname, "rows": rows, "variant": draw(st.sampled_from([0, 1, 2])), "program": draw(st.lists(op_strategy(), min_size=1, max_size=max_steps))}
 
